@@ -259,9 +259,9 @@ func cmdCheck(args []string) int {
 		fmt.Printf("VACUOUS property=%s: no obligations were generated (no contract is tagged with this property)\n", prop)
 		return 2
 	}
-	ro := RunOpts{Tier: *tier, TimeoutMs: 10000, Workers: 8, DumpDir: *dump, Seed: seed}
+	ro := RunOpts{Tier: *tier, TimeoutMs: 30000, Workers: 8, DumpDir: *dump, Seed: seed}
 	if *tier == "thorough" {
-		ro.TimeoutMs = 60000
+		ro.TimeoutMs = 90000
 		ro.Confirm = true
 	}
 	runObligations(obls, ro)
